@@ -227,8 +227,6 @@ class ClipFam(Family):
     def finding(self, c):
         if self.name == "relurelu":
             return None
-        if c["old"]:
-            return "C05-N2"
         # D1 (Relu∘Clip with b < 0) and D2 (Clip∘Clip with b < c, b < d) are fixed in /repo (979daa2, b85b7db):
         # their regions are generated and judged like every other case; the witnesses stay in the corpus.
         return None
@@ -275,7 +273,8 @@ class MinMaxFam(Family):
             first, second = same_rank(first), same_rank(second)
         return {"fam": "minmax", "kind": kind, "rx": rng.choice([0, 1, 1, 2, 3]), "dtype": rng.choice([F32, F32, "int32"]),
                 "first": first, "second": second,
-                "origin": rng.choice(["init", "cnode"]), "extra": rng.random() < 0.06, "old": rng.random() < 0.04}
+                "origin": rng.choice(["init", "cnode"]), "extra": rng.random() < 0.06, "old": rng.random() < 0.04,
+                "xknown": rng.random() > 0.06}
 
     def corpus(self):
         b = {"fam": "minmax", "rx": 1, "dtype": F32, "origin": "init", "extra": False, "old": False}
@@ -304,7 +303,7 @@ class MinMaxFam(Family):
             dt = F32
         shape = [2, 1, 2, 3][4 - c["rx"]:] if c["rx"] else []
         consts = [v for t in c["first"] + c["second"] if self.ptok(t) is not None for v in self.ptok(t)[2]]
-        hst.inp("x", dt, shape, gen=around_gen(consts, dt, shape))
+        hst.inp("x", dt, shape, gen=around_gen(consts, dt, shape), decl_shape="same" if c.get("xknown", True) else None)
         ops = {"minMin": ("Min", "Min"), "maxMax": ("Max", "Max"), "maxMin": ("Max", "Min"), "minMax": ("Min", "Max")}[c["kind"]]
 
         def operands(toks, pre):
@@ -336,7 +335,7 @@ class MinMaxFam(Family):
                 out.append(t[1:] if t.startswith("g") else t)
             return ";".join(out) if out else "."
         ginit = any(t.startswith("g") for t in c["first"] + c["second"])
-        return (f"minmax kind={c['kind']} rx={c['rx']} first={enc(c['first'])} second={enc(c['second'])} "
+        return (f"minmax kind={c['kind']} rx={c['rx'] if c.get('xknown', True) else '-'} first={enc(c['first'])} second={enc(c['second'])} "
                 f"extra={int(c['extra'])} ginit={int(ginit)} old={int(c['old'])}")
 
     def observe(self, c, after):
@@ -354,11 +353,7 @@ class MinMaxFam(Family):
             return None
         if any(t[0] for t in toks):
             return "C05-N1"
-        if c["kind"] in ("maxMin", "minMax"):
-            if c["old"]:
-                return "C05-N2"
-            if any(t[1] > c["rx"] for t in toks):
-                return "D4"
+        # D4 (constant outranks x) and C05-N2 (opset < 11) are fixed in /repo (1d299da, 625745e): the rule refuses
         return None
 
 
@@ -868,8 +863,7 @@ class ReshapeFam(Family):
         return f"fire shape={ints(shp)} az={'-' if az is None else az}"
 
     def finding(self, c):
-        if c["kind"] == "flatten" and c["x"] is not None and any(d == 0 for d in c["x"]):
-            return "D6"
+        # D6 (flatten with a static zero dim) is fixed in /repo (02f546a): the rule refuses; witness in the corpus
         # D16c2 (materialize: -1 beside a static 0) is fixed in /repo (49df852): the rule now refuses; witness in the corpus
         return None
 
@@ -1007,8 +1001,7 @@ class ScatterFam(Family):
         return "fire"
 
     def finding(self, c):
-        if c["red"] not in ("-", "none"):
-            return "C05-N4"
+        # C05-N4 (reduction ignored) is fixed in /repo (396bc06): the rule refuses; witness in the corpus
         return None
 
 
@@ -1195,6 +1188,26 @@ class NormPadFam(Family):
     exact = True
     rule_keys = ("normalize_pad_format_conv_rule", "normalize_pad_format_conv_integer_rule")
 
+    def prefer_for(self, c):
+        # onnxruntime CPU refuses auto_pad SAME_* with dilations != 1, and onnx.reference computes SAME pads for such nodes
+        # without the dilation when strides > 1 (its own output length is then not ceil(x/s)): no trustworthy oracle for the
+        # *original*; the rewritten model (explicit pads) is checked against the SAME definition instead (post_check).
+        if c["ap"] in ("SAME_UPPER", "SAME_LOWER") and any(d != 1 for d in c["dil"]):
+            return "ort_only"
+        return "ort"
+
+    def post_check(self, c, after, feeds):
+        """rewritten model must run on onnxruntime and have the SAME output length ceil(x/s) on every spatial axis"""
+        from harness.c05_lib import run_ort
+        try:
+            out = run_ort(after, feeds[:1])[0][0]
+        except Exception as e:
+            return "rewritten model does not run: " + str(e)[:120]
+        want = [1, 3] + self.out_dims(c)
+        if list(out.shape) != want:
+            return f"rewritten model output shape {list(out.shape)} != SAME definition {want}"
+        return None
+
     def gen(self, rng):
         nsp = rng.choice([1, 1, 2])
         k = [rng.choice([1, 2, 3]) for _ in range(nsp)]
@@ -1261,8 +1274,7 @@ class NormPadFam(Family):
         return f"fire pads={'-' if p is None else ints(p)}"
 
     def finding(self, c):
-        if c["ap"] in ("SAME_UPPER", "SAME_LOWER") and any(d != 1 for d in c["dil"]):
-            return "D16c1"
+        # D16c1 (dilations ignored) is fixed in /repo (6841282): pads use the dilated extent; witness in the corpus
         return None
 
 
@@ -1419,10 +1431,7 @@ class BatchNormFam(Family):
         return "fire"
 
     def finding(self, c):
-        if c["train"]:
-            return "C05-N6"
-        if c["op"] == "Gemm" and c["beta"] != 1.0:
-            return "C05-N6"
+        # C05-N6 (training mode / Gemm beta != 1) is fixed in /repo (621808b): the rule refuses; witnesses in the corpus
         return None
 
 
@@ -1525,8 +1534,7 @@ class ExpandBinFam(Family):
         return "fire"
 
     def finding(self, c):
-        if c["op"] == "BitShift" or (c["op"] == "Mod" and c["fmod"]):
-            return "C05-N3b"
+        # C05-N3b (attributes dropped) is fixed in /repo (8db6c47): the rewritten op keeps them; witnesses in the corpus
         # C05-N3a (Expand target longer than both operands) is fixed in /repo (48b48d2): the rule refuses; witness in the corpus
         if c["op"] == "PRelu" and not c["second"]:
             try:
